@@ -226,6 +226,18 @@ class Call2Mixin:
     res = self.fresh(c.ret, f'{c.short}.result') if c.ret else NONE
     env2 = dict(env)
     env2['result'] = res
+    gen_iter = None
+    if c.yields and not self.spec_mode:
+      # a call of a contracted GENERATOR function: the caller gets an iterator over what a whole run yields (the
+      # ghost log `out` of the callee's contract); the callee's effects are taken as done (whole-run semantics)
+      if c.raises_ensures or c.may_raise or c.raises:
+        raise Unsupported(f'call of generator {c.short} whose contract allows exceptions')
+      out = self.fresh(f'seq[{c.yields}]', f'{c.short}.out')
+      if not c.ret:                      # the generator's return value (StopIteration.value)
+        res = VOpaque(self.fresh_obj(f'{c.short}.return'))
+        env2['result'] = res
+      gen_iter = VIter(out, z3.IntVal(0), None, False, res, tag=c.short)
+      env2['out'] = VMList(out)
     if c.post_hook is not None:       # binds parts of the fresh result to existing objects (identity)
       res = c.post_hook(self, env2, old) or res
       env2['result'] = res
@@ -237,6 +249,8 @@ class Call2Mixin:
     self.call_log.append((c.short, res))
     if 'return' in c.cond_tests and not self.spec_mode:
       self.note_cond_test(c.cond_tests['return'])
+    if gen_iter is not None:
+      return gen_iter
     return res
 
   def havoc_path(self, env, path):
